@@ -38,7 +38,7 @@ func Cfg() *specgen.SpecCfg {
 		Schema:  specgen.Opts{MaxDepth: 2, AllOf: false, AddlProps: true, Defaults: false, Formats: []string{"date", "date-time", "uuid", "email", "byte", "password", "uri"}},
 		Simple:  specgen.SimpleOpts{Defaults: true, MaxDepth: 2, Formats: []string{"date", "date-time", "uuid", "email", "byte", "password", "uri"}},
 		MinDefs: 1, MaxDefs: 3, MinPaths: 2, MaxPaths: 3, MaxParams: 4, AcyclicRefs: true,
-		SharedParams: true, FormData: true, Body: true, UniqueParamNames: true,
+		SharedParams: true, FormData: true, Body: true, UniqueParamNames: true, AllowEmptyPct: 30, FocusParams: true,
 		Methods: []string{"get", "put", "post", "delete", "patch"},
 	}
 }
@@ -105,143 +105,131 @@ func gen(t *rapid.T) Case {
 	}
 	c := Case{Spec: specgen.JSONBytes(doc)}
 	ops := specgen.Ops(doc)
-	per := pbt.LoadEnv("C03").N(40, 120)
+	per := pbt.LoadEnv("C03").N(70, 200)
 	for oi, op := range ops {
 		params := specgen.EffectiveParams(op)
-		for i := 0; i < per; i++ {
-			l := fmt.Sprintf("o%d_r%d", oi, i)
+		var simple []J
+		var body J
+		for _, p := range params {
+			if p.P["in"] == "body" {
+				body = p.P
+			} else if p.P["type"] != "file" {
+				simple = append(simple, p.P)
+			}
+		}
+		count := 0
+		emit := func(l string, class string, mod func(r *refmodel.Request) bool) {
+			if count >= per {
+				return
+			}
 			base, ok := reqgen.ValidRequest(t, l, doc, op.Path, op.Method, reqgen.Opts{OptionalPct: 70})
 			if !ok {
-				continue
+				return
 			}
 			r := cloneReq(base)
-			class := "valid"
-			var simple []J
-			var body J
-			for _, p := range params {
-				if p.P["in"] == "body" {
-					body = p.P
-				} else if p.P["type"] != "file" {
-					simple = append(simple, p.P)
-				}
-			}
-			kinds := []string{"valid", "valid", "drop-param", "empty-param", "mutate-value", "mutate-value", "mutate-value", "malformed-text", "malformed-text", "repeat-key", "case-header"}
-			if body != nil {
-				kinds = append(kinds, "body-mutate", "body-mutate", "body-malformed", "body-absent", "body-null", "wrong-content-type")
-			}
-			k := rapid.SampledFrom(kinds).Draw(t, l+"_kind")
-			if len(simple) == 0 && (k == "drop-param" || k == "empty-param" || k == "mutate-value" || k == "malformed-text" || k == "repeat-key" || k == "case-header") {
-				k = "valid"
-			}
-			var target J
-			if len(simple) > 0 {
-				target = simple[rapid.IntRange(0, len(simple)-1).Draw(t, l+"_target")]
-			}
-			switch k {
-			case "drop-param":
-				if target["in"] == "path" {
-					break
-				}
-				dropRaw(r, target)
-				class = "drop-" + reqClass(target)
-			case "empty-param":
-				if target["in"] == "path" {
-					break
-				}
-				setRaw(r, target, []string{""})
-				class = "empty-" + reqClass(target)
-			case "mutate-value":
-				v, ok := specgen.ValidSimple(t, l+"_mv", schemaOf(target))
-				if !ok {
-					break
-				}
-				mv, mclass := specgen.Mutate(t, l+"_mut", J{}, schemaOf(target), v)
-				if mclass == "" {
-					break
-				}
-				raws, ok := refmodel.Encode(target, mv)
-				if !ok {
-					// not representable in the collection format (or not an array any more): send its JSON text
-					if s, isStr := mv.(string); isStr {
-						raws = []string{s}
-					} else {
-						break
-					}
-				}
-				setRaw(r, target, raws)
-				class = "mutated:" + lastStep(mclass)
-			case "malformed-text":
-				txt := rapid.SampledFrom(malformed).Draw(t, l+"_txt")
-				setRaw(r, target, []string{txt})
-				class = "text:" + str(target["type"]) + ":" + txt
-			case "repeat-key":
-				if target["in"] == "path" {
-					break
-				}
-				v, ok := specgen.ValidSimple(t, l+"_rv", schemaOf(target))
-				if !ok {
-					break
-				}
-				raws, ok := refmodel.Encode(target, v)
-				if !ok || len(raws) == 0 {
-					break
-				}
-				setRaw(r, target, append(append([]string{}, raws...), raws[0]))
-				class = "repeated-key"
-			case "case-header":
-				var hs []J
-				for _, p := range simple {
-					if p["in"] == "header" {
-						hs = append(hs, p)
-					}
-				}
-				if len(hs) == 0 {
-					break
-				}
-				h := hs[rapid.IntRange(0, len(hs)-1).Draw(t, l+"_h")]
-				if vals, ok := r.Header[str(h["name"])]; ok {
-					delete(r.Header, str(h["name"]))
-					r.Header[strings.ToUpper(str(h["name"]))] = vals
-					class = "header-other-case"
-				}
-			case "body-mutate":
-				s, _ := body["schema"].(J)
-				v, ok := specgen.Valid(t, l+"_bv", doc, s, 0)
-				if !ok {
-					break
-				}
-				mv, mclass := specgen.Mutate(t, l+"_bm", doc, s, v)
-				if mclass == "" {
-					break
-				}
-				b, _ := json.Marshal(mv)
-				r.HasBody, r.Body = true, string(b)
-				if r.ContentType == "" {
-					r.ContentType = "application/json"
-				}
-				class = "body-mutated:" + lastStep(mclass)
-			case "body-malformed":
-				r.HasBody, r.Body = true, rapid.SampledFrom([]string{"{", "[1,", "not json", "{\"a\":}", "\"unterminated"}).Draw(t, l+"_mal")
-				if r.ContentType == "" {
-					r.ContentType = "application/json"
-				}
-				class = "body-malformed"
-			case "body-absent":
-				r.HasBody, r.Body = false, ""
-				class = "body-absent"
-			case "body-null":
-				r.HasBody, r.Body = true, "null"
-				if r.ContentType == "" {
-					r.ContentType = "application/json"
-				}
-				class = "body-null"
-			case "wrong-content-type":
-				if r.HasBody {
-					r.ContentType = "application/x-unknown"
-					class = "wrong-content-type"
-				}
+			if mod != nil && !mod(r) {
+				return
 			}
 			c.Reqs = append(c.Reqs, Req{R: r, Class: class})
+			count++
+		}
+		// stratified: a few valid requests, then every single deviation of every parameter in turn
+		for i := 0; i < 4; i++ {
+			emit(fmt.Sprintf("o%d_v%d", oi, i), "valid", nil)
+		}
+		type dev struct {
+			class string
+			mod   func(r *refmodel.Request) bool
+		}
+		var devs []dev
+		for pi, p := range simple {
+			p := p
+			pl := fmt.Sprintf("o%d_p%d", oi, pi)
+			if p["in"] != "path" {
+				devs = append(devs, dev{"drop-" + reqClass(p), func(r *refmodel.Request) bool { dropRaw(r, p); return true }})
+				devs = append(devs, dev{"empty-" + reqClass(p), func(r *refmodel.Request) bool { setRaw(r, p, []string{""}); return true }})
+				devs = append(devs, dev{"repeated-key", func(r *refmodel.Request) bool {
+					v, ok := specgen.ValidSimple(t, pl+"_rv", schemaOf(p))
+					if !ok {
+						return false
+					}
+					raws, ok := refmodel.Encode(p, v)
+					if !ok || len(raws) == 0 {
+						return false
+					}
+					setRaw(r, p, append(append([]string{}, raws...), raws[0]))
+					return true
+				}})
+			}
+			for ti := 0; ti < 2; ti++ {
+				txt := rapid.SampledFrom(malformed).Draw(t, fmt.Sprintf("%s_txt%d", pl, ti))
+				devs = append(devs, dev{"text:" + str(p["type"]) + ":" + txt, func(r *refmodel.Request) bool { setRaw(r, p, []string{txt}); return true }})
+			}
+			if v, ok := specgen.ValidSimple(t, pl+"_mv", schemaOf(p)); ok {
+				for _, m := range specgen.AllMutations(J{}, schemaOf(p), v) {
+					m := m
+					devs = append(devs, dev{"mutated:" + lastStep(m.Class), func(r *refmodel.Request) bool {
+						raws, ok := refmodel.Encode(p, m.Doc)
+						if !ok {
+							if s, isStr := m.Doc.(string); isStr {
+								raws = []string{s}
+							} else {
+								return false
+							}
+						}
+						setRaw(r, p, raws)
+						return true
+					}})
+				}
+			}
+			if p["in"] == "header" {
+				devs = append(devs, dev{"header-other-case", func(r *refmodel.Request) bool {
+					vals, ok := r.Header[str(p["name"])]
+					if !ok {
+						return false
+					}
+					delete(r.Header, str(p["name"]))
+					r.Header[strings.ToUpper(str(p["name"]))] = vals
+					return true
+				}})
+			}
+		}
+		if body != nil {
+			bs, _ := body["schema"].(J)
+			setBody := func(r *refmodel.Request, txt string) {
+				r.HasBody, r.Body = true, txt
+				if r.ContentType == "" {
+					r.ContentType = "application/json"
+				}
+			}
+			devs = append(devs,
+				dev{"body-malformed", func(r *refmodel.Request) bool { setBody(r, "{\"a\":"); return true }},
+				dev{"body-absent", func(r *refmodel.Request) bool { r.HasBody, r.Body = false, ""; return true }},
+				dev{"body-null", func(r *refmodel.Request) bool { setBody(r, "null"); return true }},
+				dev{"wrong-content-type", func(r *refmodel.Request) bool {
+					if !r.HasBody {
+						return false
+					}
+					r.ContentType = "application/x-unknown"
+					return true
+				}})
+			if v, ok := specgen.Valid(t, fmt.Sprintf("o%d_bv", oi), doc, bs, 0); ok {
+				for _, m := range specgen.AllMutations(doc, bs, v) {
+					m := m
+					devs = append(devs, dev{"body-mutated:" + lastStep(m.Class), func(r *refmodel.Request) bool {
+						b, _ := json.Marshal(m.Doc)
+						setBody(r, string(b))
+						return true
+					}})
+				}
+			}
+		}
+		if len(devs) > 0 {
+			start := rapid.IntRange(0, len(devs)-1).Draw(t, fmt.Sprintf("o%d_start", oi))
+			for k := 0; k < len(devs) && count < per; k++ {
+				d := devs[(start+k)%len(devs)]
+				emit(fmt.Sprintf("o%d_d%d", oi, k), d.class, d.mod)
+			}
 		}
 	}
 	return c
@@ -384,6 +372,26 @@ func isZero(v any) bool {
 }
 
 func check(c Case) (o pbt.Outcome) {
+	o = checkInner(c)
+	// region: an operation whose body is `type: string, format: byte` - the generated
+	// binder never hands that body over (listed known finding); every deviation seen on
+	// such a body is the same defect
+	for i, v := range o.Violations {
+		if strings.Contains(v.Msg, "no consumer registered for") {
+			// region: no consumer is generated for the default media type when the spec only
+			// declares other media types (listed known finding): every request with a body
+			// to such an operation is answered 500
+			o.Violations[i].Sig = "C03|region:no-consumer-for-default-media-type"
+			continue
+		}
+		if strings.Contains(v.Msg, `"schema":{"format":"byte","type":"string"}`) && (strings.Contains(v.Sig, "|body") || strings.Contains(v.Msg, "validation body")) {
+			o.Violations[i].Sig = "C03|wrong-value|body||string:byte"
+		}
+	}
+	return
+}
+
+func checkInner(c Case) (o pbt.Outcome) {
 	if err := swg.ValidateSpec(c.Spec); err != nil {
 		o.Discard = true
 		o.Class("discard:invalid-spec")
@@ -399,6 +407,8 @@ func check(c Case) (o pbt.Outcome) {
 	// generated models ignore unknown properties (documented, non-strict mode): the
 	// reference reads body schemas without `additionalProperties: false`
 	eraseAPFalse(doc)
+	relaxed := specgen.CloneJ(doc)
+	relaxUnvalidatedObjects(relaxed)
 	lib, err := refmodel.NewLib(specgen.JSONBytes(doc))
 	if err != nil {
 		o.Discard = true
@@ -428,6 +438,18 @@ func check(c Case) (o pbt.Outcome) {
 		opInfo := refmodel.FindOp(doc, rq.R.Template, rq.R.Method)
 		if ref.Verdict == refmodel.Unspecified || opInfo == nil {
 			continue
+		}
+		if rq.R.HasBody {
+			var bv any
+			if json.Unmarshal([]byte(rq.R.Body), &bv) == nil && bv != nil && refmodel.ContainsNull(bv) {
+				o.Class("unspecified:body-with-explicit-null")
+				continue
+			}
+			// property-less objects may or may not be validated (documented): both readings must agree
+			if alt := refmodel.Bind(relaxed, rq.R); alt.Verdict != ref.Verdict {
+				o.Class("unspecified:body-with-unvalidated-object-position")
+				continue
+			}
 		}
 		if ref.Verdict == refmodel.Reject && strings.Contains(ref.Reason, "validation body") && bodyHasTolerableZero(doc, opInfo, rq.R) {
 			// documented tolerance: explicit zero values of optional properties may be taken for absent
@@ -502,6 +524,9 @@ func check(c Case) (o pbt.Outcome) {
 			}
 		case refmodel.Reject:
 			if reached {
+				if reasonClass(ref.Reason) == "validation:format" && (strings.HasSuffix(ck, ":zero") || strings.Contains(ck, "add-zero-")) {
+					ck = strings.SplitN(ck, ":", 2)[0] + ":empty-string-for-formatted-type"
+				}
 				o.Fail("C03|accepts-invalid|"+reasonClass(ref.Reason)+"|"+ck, "request violating the spec (%s) reaches the handler\n  request: %s\n  handler saw: %s\n  params: %s", ref.Reason, pretty(rq.R), paramsJSON(r.Observed.Params), paramsOf(opInfo))
 			} else if r.Status < 400 || r.Status > 499 {
 				o.Fail(fmt.Sprintf("C03|wrong-status|%d|%s", r.Status, reasonClass(ref.Reason)), "request violating the spec (%s) is answered %d, not 4xx\n  request: %s\n  response: %s", ref.Reason, r.Status, pretty(rq.R), r.RespBody)
@@ -512,6 +537,27 @@ func check(c Case) (o pbt.Outcome) {
 }
 
 // valueEq compares the recorded value of a simple parameter with the reference value.
+func relaxUnvalidatedObjects(v any) {
+	switch x := v.(type) {
+	case map[string]any:
+		if x["type"] == "object" && x["properties"] == nil && x["allOf"] == nil && x["$ref"] == nil {
+			if _, isSchema := x["additionalProperties"].(map[string]any); !isSchema {
+				delete(x, "type")
+				delete(x, "minProperties")
+				delete(x, "maxProperties")
+				delete(x, "additionalProperties")
+			}
+		}
+		for _, e := range x {
+			relaxUnvalidatedObjects(e)
+		}
+	case []any:
+		for _, e := range x {
+			relaxUnvalidatedObjects(e)
+		}
+	}
+}
+
 func eraseAPFalse(v any) {
 	switch x := v.(type) {
 	case map[string]any:
@@ -586,6 +632,11 @@ func opShape(op *refmodel.OpInfo) string {
 
 func reasonClass(reason string) string {
 	r := reason
+	if strings.HasPrefix(r, "validation ") {
+		if i := strings.LastIndex(r, ": "); i >= 0 {
+			return "validation:" + r[i+2:]
+		}
+	}
 	if i := strings.Index(r, ": "); i >= 0 {
 		r = r[i+2:]
 	}
